@@ -115,6 +115,10 @@ let res_str = function
   | InsOk -> "ok" | InsBadSig -> "badsig" | InsSelfParentNormal -> "selfparent-normal"
   | InsSelfParentOther -> "selfparent-other" | InsOtherParent -> "otherparent" | InsWire -> "wire" | InsStore -> "store"
 
+(* window statistics: largest last_round - (last_consensus + 1) seen, peer-set table insertions, insertions at or below last_round *)
+let w_max_gap = ref 0
+let w_insertions = ref 0
+let w_below = ref 0
 let node_of id = try Hashtbl.find nodes id with Not_found -> failwith ("unknown node " ^ id)
 
 let handle check diff (toks : string list) (raw : string) : bool =
@@ -141,10 +145,19 @@ let handle check diff (toks : string list) (raw : string) : bool =
   | "I" :: id :: rest ->
     let n = node_of id in
     let (e, tail) = parse_event rest in
+    let st0 = n.st in
     let (res, st') = insert_and_run n.st e in
     n.st <- st';
     let expect = match tail with "=>" :: r :: _ -> r | _ -> "?" in
     check "I" raw expect (res_str res);
+    (* the window of validator-set changes (Model/Window.v; known finding C10-window): statistics over every insertion *)
+    let gap = int_of_z (Window.round_gap st') in
+    if gap > !w_max_gap then w_max_gap := gap;
+    let ne = Stdlib.List.length (Window.new_entries st0 st') in
+    if ne > 0 then begin
+      w_insertions := !w_insertions + ne;
+      if not (Window.window_stepb st0 st') then incr w_below
+    end;
     (* pools (NodeModel): a self-event carries exactly the transactions pending at its creation *)
     (* (a reset node that receives one of its OWN events created before the reset -- payload differs from its pending
        pool -- is not creating a self-event: the pool discipline of C05 says nothing about it) *)
